@@ -3,142 +3,137 @@ Contract/CcSchemaCodec.v, correspondence with schema_json.rs / schema.rs, direct
 import json
 from . import common as c
 
-PRE = ("From Coq Require Import String.\nFrom Coq Require Import NArith ZArith List. Import ListNotations.\n"
-       "From CB Require Import Contract.SchemaJson Contract.CcSchemaCodec.\n"
-       "Local Open Scope N_scope.\n"
-       "Definition hx (s : string) : list N := match hex_decode (str_of s) with Some b => b | None => [] end.\n"
-       "Definition repn (u : list N) (k : N) : list N := List.concat (List.repeat u (N.to_nat k)).\n")
+# ----------------------------------------------------------------------------- s-expressions for the runner
+def xs(b):
+    return "x" + bytes(b).hex()
 
 
-# ----------------------------------------------------------------------------- Gallina terms
-def nlist(bs):
-    """a byte list as a hex string literal decoded inside Coq (list notations elaborate slowly)"""
-    bs = bytes(bs)
-    n = len(bs)
-    if n == 0:
-        return "[]"
-    if n > 64:
-        for u in (1, 2, 3):
-            if n % u == 0 and bs == bs[:u] * (n // u):
-                return '(repn (hx "%s") %d)' % (bs[:u].hex(), n // u)
-    if n > 4000:
-        return "(" + " ++ ".join('hx "%s"' % bs[i:i + 4000].hex() for i in range(0, n, 4000)) + ")"
-    return '(hx "%s")' % bs.hex()
+def xstr(s):
+    return "x" + s.encode("utf-8").hex()
 
 
-def sterm(s):
-    return nlist(s.encode("utf-8"))
+SIMPLE = {"Unit", "Bool", "U8", "U16", "U32", "U64", "U128", "I8", "I16", "I32", "I64", "I128", "Amount",
+          "AccountAddress", "ContractAddress", "Timestamp", "Duration"}
 
 
-def hexlist(h):
-    return nlist(bytes.fromhex(h))
-
-
-SL = {8: "SL8", 16: "SL16", 32: "SL32", 64: "SL64"}
-SIMPLE = {"Unit": "TUnit", "Bool": "TBool", "U8": "TU8", "U16": "TU16", "U32": "TU32", "U64": "TU64", "U128": "TU128",
-          "I8": "TI8", "I16": "TI16", "I32": "TI32", "I64": "TI64", "I128": "TI128", "Amount": "TAmount",
-          "AccountAddress": "TAccountAddress", "ContractAddress": "TContractAddress", "Timestamp": "TTimestamp",
-          "Duration": "TDuration"}
-
-
-def fields_term(f):
+def fields_sx(f):
     k = f["k"]
     if k == "0":
-        return "FNone"
+        return "Z"
     if k == "N":
-        t = "NFnil"
-        for name, ty in reversed(f["l"]):
-            t = "(NFcons %s %s %s)" % (sterm(name), ty_term(ty), t)
-        return "(FNamed %s)" % t
-    t = "TSnil"
-    for ty in reversed(f["l"]):
-        t = "(TScons %s %s)" % (ty_term(ty), t)
-    return "(FUnnamed %s)" % t
+        return "(N %s)" % " ".join("(%s %s)" % (xstr(n), ty_sx(t)) for n, t in f["l"])
+    return "(U %s)" % " ".join(ty_sx(t) for t in f["l"])
 
 
-def ty_term(d):
+def ty_sx(d):
     t = d["t"]
     if t in SIMPLE:
-        return SIMPLE[t]
+        return t
     if t == "Pair":
-        return "(TPair %s %s)" % (ty_term(d["a"]), ty_term(d["b"]))
+        return "(Pair %s %s)" % (ty_sx(d["a"]), ty_sx(d["b"]))
     if t in ("List", "Set"):
-        return "(T%s %s %s)" % (t, SL[d["s"]], ty_term(d["e"]))
+        return "(%s %d %s)" % (t, d["s"], ty_sx(d["e"]))
     if t == "Map":
-        return "(TMap %s %s %s)" % (SL[d["s"]], ty_term(d["a"]), ty_term(d["b"]))
+        return "(Map %d %s %s)" % (d["s"], ty_sx(d["a"]), ty_sx(d["b"]))
     if t == "Array":
-        return "(TArray %d %s)" % (d["n"], ty_term(d["e"]))
+        return "(Array %d %s)" % (d["n"], ty_sx(d["e"]))
     if t == "Struct":
-        return "(TStruct %s)" % fields_term(d["f"])
+        return "(Struct %s)" % fields_sx(d["f"])
     if t == "Enum":
-        v = "Vnil"
-        for name, f in reversed(d["v"]):
-            v = "(Vcons %s %s %s)" % (sterm(name), fields_term(f), v)
-        return "(TEnum %s)" % v
+        return "(Enum %s)" % " ".join("(%s %s)" % (xstr(n), fields_sx(f)) for n, f in d["v"])
     if t == "TaggedEnum":
-        v = "TVnil"
-        for tag, name, f in reversed(d["v"]):
-            v = "(TVcons %d %s %s %s)" % (tag, sterm(name), fields_term(f), v)
-        return "(TTaggedEnum %s)" % v
+        return "(TaggedEnum %s)" % " ".join("(%d %s %s)" % (tag, xstr(n), fields_sx(f)) for tag, n, f in d["v"])
     if t in ("String", "ContractName", "ReceiveName", "ByteList"):
-        return "(T%s %s)" % (t, SL[d["s"]])
+        return "(%s %d)" % (t, d["s"])
     if t in ("ULeb128", "ILeb128", "ByteArray"):
-        return "(T%s %d)" % (t, d["n"])
+        return "(%s %d)" % (t, d["n"])
     raise ValueError(t)
 
 
-def json_term(v):
+def json_sx(v):
     if v is None:
-        return "JNull"
+        return "null"
     if isinstance(v, bool):
-        return "(JBool %s)" % ("true" if v else "false")
+        return "t" if v else "f"
     if isinstance(v, int):
-        return "(JNum (%d)%%Z)" % v
+        return "(n %d)" % v
     if isinstance(v, float):
-        return "JFloat"
+        return "F"
     if isinstance(v, str):
-        return "(JStr %s)" % sterm(v)
+        return "(s %s)" % xstr(v)
     if isinstance(v, list):
-        return "(JArr [%s])" % "; ".join(json_term(x) for x in v)
-    return "(JObj [%s])" % "; ".join("(%s, %s)" % (sterm(k), json_term(x)) for k, x in v.items())
+        return "(a %s)" % " ".join(json_sx(x) for x in v)
+    return "(o %s)" % " ".join("(%s %s)" % (xstr(k), json_sx(x)) for k, x in v.items())
 
 
-def opt_term(o, f):
-    return "None" if o is None else "(Some %s)" % f(o)
+def opt_sx(o, f):
+    return "none" if o is None else "(some %s)" % f(o)
 
 
-def f1_term(f):
+def f1_sx(f):
     if f["k"] == "P":
-        return "(F1Param %s)" % ty_term(f["p"])
+        return "(P %s)" % ty_sx(f["p"])
     if f["k"] == "R":
-        return "(F1Ret %s)" % ty_term(f["r"])
-    return "(F1Both %s %s)" % (ty_term(f["p"]), ty_term(f["r"]))
+        return "(R %s)" % ty_sx(f["r"])
+    return "(B %s %s)" % (ty_sx(f["p"]), ty_sx(f["r"]))
 
 
-def f2_term(f):
-    return "{| f2_param := %s; f2_ret := %s; f2_err := %s |}" % (
-        opt_term(f["p"], ty_term), opt_term(f["r"], ty_term), opt_term(f["e"], ty_term))
+def f2_sx(f):
+    return "(F2 %s %s %s)" % (opt_sx(f["p"], ty_sx), opt_sx(f["r"], ty_sx), opt_sx(f["e"], ty_sx))
 
 
-def map_term(m, f):
-    return "[%s]" % "; ".join("(%s, %s)" % (sterm(k), f(x)) for k, x in m)
+def map_sx(m, f):
+    return " ".join("(%s %s)" % (xstr(k), f(x)) for k, x in m)
 
 
-def module_term(d):
+def module_sx(d):
     v = d["v"]
     if v == 0:
-        cs = map_term(d["c"], lambda x: "{| c0_state := %s; c0_init := %s; c0_receive := %s |}" % (
-            opt_term(x["state"], ty_term), opt_term(x["init"], ty_term), map_term(x["receive"], ty_term)))
+        cs = map_sx(d["c"], lambda x: "(C0 %s %s %s)" % (opt_sx(x["state"], ty_sx), opt_sx(x["init"], ty_sx), map_sx(x["receive"], ty_sx)))
     elif v == 1:
-        cs = map_term(d["c"], lambda x: "{| c1_init := %s; c1_receive := %s |}" % (
-            opt_term(x["init"], f1_term), map_term(x["receive"], f1_term)))
+        cs = map_sx(d["c"], lambda x: "(C1 %s %s)" % (opt_sx(x["init"], f1_sx), map_sx(x["receive"], f1_sx)))
     elif v == 2:
-        cs = map_term(d["c"], lambda x: "{| c2_init := %s; c2_receive := %s |}" % (
-            opt_term(x["init"], f2_term), map_term(x["receive"], f2_term)))
+        cs = map_sx(d["c"], lambda x: "(C2 %s %s)" % (opt_sx(x["init"], f2_sx), map_sx(x["receive"], f2_sx)))
     else:
-        cs = map_term(d["c"], lambda x: "{| c3_init := %s; c3_receive := %s; c3_event := %s |}" % (
-            opt_term(x["init"], f2_term), map_term(x["receive"], f2_term), opt_term(x["event"], ty_term)))
+        cs = map_sx(d["c"], lambda x: "(C3 %s %s %s)" % (opt_sx(x["init"], f2_sx), opt_sx(x["event"], ty_sx), map_sx(x["receive"], f2_sx)))
     return "(MV%d %s)" % (v, cs)
+
+
+def parse_sx(s):
+    """s-expression -> nested Python lists of atoms (str)"""
+    stack = [[]]
+    i, n = 0, len(s)
+    while i < n:
+        ch = s[i]
+        if ch == "(":
+            stack.append([])
+            i += 1
+        elif ch == ")":
+            top = stack.pop()
+            stack[-1].append(top)
+            i += 1
+        elif ch == " ":
+            i += 1
+        else:
+            j = i
+            while j < n and s[j] not in " ()":
+                j += 1
+            stack[-1].append(s[i:j])
+            i = j
+    return stack[0][0]
+
+
+def run_model(ctx, runner, name, lines, timeout=1500):
+    rc, out = c.sh([runner], input=("\n".join(lines) + "\n").encode(), timeout=timeout)
+    res = out.split("\n")
+    if res and res[-1] == "":
+        res.pop()
+    if rc != 0 or len(res) != len(lines):
+        raise RuntimeError("model runner (%s): rc=%s, %d answers for %d commands: %s" % (name, rc, len(res), len(lines), out[-500:]))
+    bad = [r for r in res if r.startswith("!error")]
+    if bad:
+        raise RuntimeError("model runner (%s): %s" % (name, bad[0]))
+    return [parse_sx(r) for r in res]
 
 
 # ----------------------------------------------------------------------------- canonical forms
@@ -152,78 +147,39 @@ def canon_py(v):
     if isinstance(v, float):
         return ("f",)
     if isinstance(v, str):
-        return ("s", tuple(v.encode("utf-8")))
+        return ("s", v.encode("utf-8"))
     if isinstance(v, list):
         return ("a", tuple(canon_py(x) for x in v))
-    return ("o", tuple(sorted((tuple(k.encode("utf-8")), canon_py(x)) for k, x in v.items())))
+    return ("o", tuple(sorted((k.encode("utf-8"), canon_py(x)) for k, x in v.items())))
 
 
 def canon_model(t):
-    if t == "JNull":
+    if t == "null":
         return ("z",)
-    if t == "JFloat":
+    if t == "F":
         return ("f",)
+    if t in ("t", "f"):
+        return ("b", t == "t")
     h = t[0]
-    if h == "JBool":
-        return ("b", t[1] == "true")
-    if h == "JNum":
-        return ("n", t[1])
-    if h == "JStr":
-        return ("s", tuple(t[1]))
-    if h == "JArr":
-        return ("a", tuple(canon_model(x) for x in t[1]))
-    if h == "JObj":
-        return ("o", tuple(sorted((tuple(k), canon_model(x)) for k, x in t[1])))
+    if h == "n":
+        return ("n", int(t[1]))
+    if h == "s":
+        return ("s", bytes.fromhex(t[1][1:]))
+    if h == "a":
+        return ("a", tuple(canon_model(x) for x in t[1:]))
+    if h == "o":
+        return ("o", tuple(sorted((bytes.fromhex(k[1:]), canon_model(x)) for k, x in t[1:])))
     raise ValueError("model json %r" % (t,))
 
 
-def fields_py(f):
-    k = f["k"]
-    if k == "0":
-        return "FNone"
-    if k == "N":
-        t = "NFnil"
-        for name, ty in reversed(f["l"]):
-            t = ("NFcons", list(name.encode("utf-8")), ty_py(ty), t)
-        return ("FNamed", t)
-    t = "TSnil"
-    for ty in reversed(f["l"]):
-        t = ("TScons", ty_py(ty), t)
-    return ("FUnnamed", t)
+def model_result(t):
+    """'-' | [json, restlen]  ->  None | (canonical json, restlen)"""
+    return None if t == "-" else (canon_model(t[0]), int(t[1]))
 
 
-def ty_py(d):
-    """the Python value that parse_coq_term yields for Coq's printing of the type"""
-    t = d["t"]
-    if t in SIMPLE:
-        return SIMPLE[t]
-    if t == "Pair":
-        return ("TPair", ty_py(d["a"]), ty_py(d["b"]))
-    if t in ("List", "Set"):
-        return ("T" + t, SL[d["s"]], ty_py(d["e"]))
-    if t == "Map":
-        return ("TMap", SL[d["s"]], ty_py(d["a"]), ty_py(d["b"]))
-    if t == "Array":
-        return ("TArray", d["n"], ty_py(d["e"]))
-    if t == "Struct":
-        return ("TStruct", fields_py(d["f"]))
-    if t == "Enum":
-        v = "Vnil"
-        for name, f in reversed(d["v"]):
-            v = ("Vcons", list(name.encode("utf-8")), fields_py(f), v)
-        return ("TEnum", v)
-    if t == "TaggedEnum":
-        v = "TVnil"
-        for tag, name, f in reversed(d["v"]):
-            v = ("TVcons", tag, list(name.encode("utf-8")), fields_py(f), v)
-        return ("TTaggedEnum", v)
-    if t in ("String", "ContractName", "ReceiveName", "ByteList"):
-        return ("T" + t, SL[d["s"]])
-    return ("T" + t, d["n"])
-
-
-def hx(bs):
-    return bytes(bs).hex()
+def hx(x):
+    """'x<hex>' atom of the runner -> hex"""
+    return x[1:]
 
 
 def trim(o, n=1500):
@@ -261,6 +217,10 @@ def run(ctx):
                       "harness no longer builds against the implementation", no_input=True)
         return
 
+    okx, runner = c.extract_build(ctx, "ExtractC10.v", "driver_c10.ml", "c10")
+    if not okx:
+        ctx.violation({"layer": "model extraction / runner build", "error": runner[-2000:]}, "the extracted model runner no longer builds", no_input=True)
+        return
     quick = ctx.quick
     depth = 8 if quick else 32
     n_rt, n_by, n_sc, n_ct, n_leaf = (900, 700, 200, 250, 150) if quick else (16000, 12000, 3000, 5000, 3000)
@@ -291,11 +251,7 @@ def run(ctx):
             counters["o4_leaf_panics"] += 1
             continue
         live.append(cs)
-    exprs = []
-    for cs in live:
-        exprs.append("let t := %s in let j := %s in (run_from t j, match run_from t j with Some b => run_to t b | None => None end, run_norm t j)"
-                     % (ty_term(cs["ty"]), json_term(cs["j"])))
-    terms = c.coq_eval(ctx, "rt", PRE, exprs, shard=max(40, len(exprs) // 32 + 1), timeout=1500)
+    terms = run_model(ctx, runner, "rt", ["(rt %s %s)" % (ty_sx(cs["ty"]), json_sx(cs["j"])) for cs in live])
     for cs, t in zip(live, terms):
         bump(dist["rt"], cs["kind"])
         bump(dist["mut"], cs["mut"])
@@ -303,7 +259,7 @@ def run(ctx):
         key = c.digest([cs["ty"], cs["j"]])
         seen.add(key)
         m_from, m_to, m_norm = t
-        m_bytes = None if m_from == "None" else hx(m_from[1])
+        m_bytes = None if m_from == "-" else hx(m_from)
         ib = cs["bytes"]
         short = {"type": cs["ty"], "json": cs.get("raw", cs["j"]), "json_for_model": cs["j"], "impl_bytes": ib, "mutation": cs["mut"]}
         if ib == "PANIC" or cs.get("out") in ("PANIC", "LEAFPANIC"):
@@ -333,7 +289,7 @@ def run(ctx):
         if cs["rest"] != 0:
             viol(dict(short, rest=cs["rest"]), "to_json left %d bytes of serial_value's output unread" % cs["rest"])
             continue
-        got_to = None if m_to == "None" else (canon_model(m_to[1][0]), len(m_to[1][1]))
+        got_to = model_result(m_to)
         if got_to != (want, 0):
             viol(dict(short, impl_json=cs["out"]["v"], model_to_json=str(m_to)[:1500], theorem="json_roundtrip / to_json correspondence"),
                  "to_json differs from the model on bytes %s" % ib[:80])
@@ -355,8 +311,7 @@ def run(ctx):
         return
     bcases = lines_of(out)
     ctx.log("rt compared; bytes: %d cases from the harness" % len(bcases))
-    exprs = ["run_to %s %s" % (ty_term(cs["ty"]), hexlist(cs["bytes"])) for cs in bcases]
-    terms = c.coq_eval(ctx, "by", PRE, exprs, shard=max(40, len(exprs) // 32 + 1), timeout=1500)
+    terms = run_model(ctx, runner, "by", ["(by %s x%s)" % (ty_sx(cs["ty"]), cs["bytes"]) for cs in bcases])
     for cs, t in zip(bcases, terms):
         bump(dist["by"], cs["kind"])
         bump(dist["src"], cs["src"])
@@ -368,14 +323,14 @@ def run(ctx):
             continue
         if cs["out"] == "ERR":
             counters["by_error"] += 1
-            if t != "None":
+            if t != "-":
                 viol(dict(short, model=str(t)[:1500], impl_error=cs.get("err"), theorem="to_json correspondence (model decodes, implementation fails)"),
                      "to_json fails on bytes the model decodes: %s" % cs["bytes"][:80])
             continue
         counters["by_value"] += 1
         nontrivial.add(key)
         want = (canon_py(cs["out"]["v"]), cs["rest"])
-        got = None if t == "None" else (canon_model(t[1][0]), len(t[1][1]))
+        got = model_result(t)
         if got != want:
             viol(dict(short, impl_json=cs["out"]["v"], impl_rest=cs["rest"], model=str(t)[:1500], theorem="to_json correspondence"),
                  "to_json differs from the model on bytes %s" % cs["bytes"][:80])
@@ -418,21 +373,19 @@ def run(ctx):
                 viol({"module": cs["desc"], "bytes": cs["bytes"], "failed": bad},
                      "module schema does not round-trip through its binary form: %s" % ",".join(bad))
                 continue
-            mt = module_term(cs["desc"])
-            exprs.append("let m := %s in (enc_versioned m, enc_module_body m, match schema_new (enc_versioned m) None with Some m' => enc_versioned m' | None => [] end,"
-                         " match schema_new (enc_module_body m) (Some (module_version m)) with Some m' => enc_versioned m' | None => [] end)" % mt)
+            exprs.append("(module %s)" % module_sx(cs["desc"]))
             owners.append(cs)
         elif k == "type":
             if not cs["rt"]:
                 viol({"type": cs["ty"], "bytes": cs["bytes"]}, "Type schema does not round-trip through its binary form")
                 continue
-            exprs.append("let t := %s in (enc_ty t, match dec_ty_top (enc_ty t) with Some (t', r) => (enc_ty t', r) | None => ([], []) end)" % ty_term(cs["ty"]))
+            exprs.append("(encty %s)" % ty_sx(cs["ty"]))
             owners.append(cs)
         elif k in ("f1", "f2"):
             if not cs["rt"]:
                 viol({"function": cs["f"], "bytes": cs["bytes"]}, "Function schema does not round-trip through its binary form")
                 continue
-            exprs.append("enc_%s %s" % (k, (f1_term if k == "f1" else f2_term)(cs["f"])))
+            exprs.append("(enc%s %s)" % (k, (f1_sx if k == "f1" else f2_sx)(cs["f"])))
             owners.append(cs)
         elif k == "typebytes":
             if cs["out"] == "PANIC":
@@ -441,9 +394,9 @@ def run(ctx):
             if cs["out"] != "ERR" and not cs.get("redecode"):
                 viol({"bytes": cs["bytes"], "decoded": cs["out"]}, "a decoded Type schema does not round-trip through its own encoding")
                 continue
-            exprs.append("dec_ty_top %s" % hexlist(cs["bytes"]))
+            exprs.append("(decty x%s)" % cs["bytes"])
             owners.append(cs)
-    terms = c.coq_eval(ctx, "sc", PRE, exprs, shard=max(20, len(exprs) // 32 + 1), timeout=1500)
+    terms = run_model(ctx, runner, "schema", exprs)
     for cs, t in zip(owners, terms):
         k = cs["k"]
         key = c.digest([k, cs["bytes"]])
@@ -457,7 +410,7 @@ def run(ctx):
                      "module schema encoding differs from the model")
         elif k == "type":
             nontrivial.add(key)
-            if hx(t[0]) != cs["bytes"] or hx(t[1][0]) != cs["bytes"] or t[1][1] != []:
+            if hx(t[0]) != cs["bytes"] or t[1] == "-" or hx(t[1][0]) != cs["bytes"] or t[1][1] != "0":
                 viol({"type": cs["ty"], "impl": cs["bytes"], "model": hx(t[0]), "theorem": "schema_binary_roundtrip_type / codec correspondence"},
                      "Type schema encoding differs from the model")
         elif k in ("f1", "f2"):
@@ -466,12 +419,12 @@ def run(ctx):
                 viol({"function": cs["f"], "impl": cs["bytes"], "model": hx(t)}, "Function schema encoding differs from the model")
         else:
             if cs["out"] == "ERR":
-                if t != "None":
+                if t != "-":
                     viol({"bytes": cs["bytes"], "model": str(t)[:800]}, "Type::deserial rejects bytes the model decodes")
             else:
                 nontrivial.add(key)
-                want = (ty_py(cs["out"]["ty"]), len(bytes.fromhex(cs["bytes"])) - cs["out"]["used"])
-                got = None if t == "None" else (t[1][0], len(t[1][1]))
+                want = (parse_sx(ty_sx(cs["out"]["ty"])), len(bytes.fromhex(cs["bytes"])) - cs["out"]["used"])
+                got = None if t == "-" else (t[0], int(t[1]))
                 if got != want:
                     viol({"bytes": cs["bytes"], "impl": cs["out"], "model": str(t)[:800]}, "Type::deserial differs from the model")
     ctx.notes["schema_distribution"] = sdist
